@@ -209,11 +209,12 @@ pub struct RoundCtx {
     pub seen_pub: Mutex<Option<Vec<u8>>>,    // the key the server announced
     pub fixed_loc: FixedLocalizationAdapter,
     pub t0: tokio::time::Instant,
+    pub t_div: u64, // 1: log milliseconds, 1000: log seconds (timed tiers)
 }
 
 impl RoundCtx {
     fn push(&self, c: Value) {
-        let t = self.t0.elapsed().as_millis() as u64;
+        let t = self.t0.elapsed().as_millis() as u64 / self.t_div;
         self.log.lock().unwrap().push(json!({"e": "call", "c": c, "t": t}));
     }
     fn ret(&self, a: &str) -> Option<Value> {
@@ -1039,27 +1040,48 @@ fn classify(res: Result<Result<(), passage_protocol::Error>, tokio::task::JoinEr
     }
 }
 
-/// A client-side step with virtual timing, for the timed and segmented tiers.
-#[derive(Clone, Debug)]
-pub enum Step {
-    /// send an abstract frame (built at this moment, so echoes can use the last keep-alive id)
-    Frame(Value),
-    /// send raw bytes of the frame built from `f`, bytes [from, to) only (segmentation)
-    Part { f: Value, from: usize, to: Option<usize> },
-    /// wait until virtual time t (ms since connection creation)
-    Until(u64),
-    /// wait for the n-th adapter call to have been made
-    UntilCall(String),
-    /// let the server run until it is idle (1 virtual ms)
-    Settle,
-    Close,
+/// Timed / segmented driving of the configuration phase (C07, C08): all times in whole seconds since the
+/// connection was created; the client acts at x.25 / x.75 so that nothing coincides with a keep-alive deadline.
+#[derive(Clone, Debug, Default)]
+pub struct Timed {
+    pub ack_at: u64,
+    pub info_at: u64,
+    pub policy: String,
+    pub locale: String,
+    pub horizon: u64,
+    /// extra ignorable frame (plugin message of `size` bytes) sent at `at`
+    pub plugin: Option<(u64, usize)>,
+    /// segmentation: which client frame ("LoginAck" | "ClientInfo" | "Echo" | "Plugin"), cut offset in bytes
+    /// (0 = nothing before the pause), pause in seconds before the rest is delivered
+    pub seg: Option<(String, usize, u64)>,
+    /// write stall: at second `at` the transport starts accepting `k` bytes and then returns Pending until second `release`
+    pub wstall: Option<(u64, usize, u64)>,
+    /// accept every clientbound write in two portions (k bytes, then the rest)
+    pub wsplit: Option<usize>,
+}
+
+impl Timed {
+    pub fn from_json(v: &Value) -> Self {
+        let g = |k: &str| v[k].as_u64().unwrap_or(0);
+        Timed {
+            ack_at: g("ackAt"),
+            info_at: g("infoAt"),
+            policy: v["policy"].as_str().unwrap_or("prompt").to_string(),
+            locale: v["locale"].as_str().unwrap_or("en_US").to_string(),
+            horizon: v["horizon"].as_u64().unwrap_or(400),
+            plugin: v.get("plugin").and_then(|p| Some((p["at"].as_u64()?, p["size"].as_u64()? as usize))),
+            seg: v.get("seg").and_then(|p| Some((p["frame"].as_str()?.to_string(), p["cut"].as_u64()? as usize, p["pause"].as_u64()?))),
+            wstall: v.get("wstall").and_then(|p| Some((p["at"].as_u64()?, p["k"].as_u64()? as usize, p["release"].as_u64()?))),
+            wsplit: v.get("wsplit").and_then(|p| p.as_u64()).map(|k| k as usize),
+        }
+    }
 }
 
 pub async fn run_round(
     conc: Arc<Conc>,
     rc: RoundCfg,
     events: &[Value],
-    steps: Option<Vec<Step>>,
+    timed: Option<Timed>,
     lats: HashMap<String, u64>,
     jar: &mut Jar,
     log: Log,
@@ -1085,6 +1107,7 @@ pub async fn run_round(
         seen_pub: Mutex::new(None),
         fixed_loc: FixedLocalizationAdapter::new("en_US".into(), conc.loc_tables.clone()),
         t0,
+        t_div: if timed.is_some() { 1000 } else { 1 },
     });
     let (stream, end) = pipe();
     end.set_t0(t0);
@@ -1125,7 +1148,7 @@ pub async fn run_round(
     settle().await;
     cl.drain(ms(t0));
     let mut closed = false;
-    match steps {
+    match timed {
         None => {
             for ev in events {
                 if ev["e"] != "rx" {
@@ -1149,68 +1172,124 @@ pub async fn run_round(
                 cl.drain(ms(t0));
             }
         }
-        Some(steps) => {
-            let mut cache: Option<(Value, Vec<u8>)> = None;
-            for st in steps {
-                match st {
-                    Step::Frame(f) => {
-                        let act = cl.build(&f);
-                        cl.push(json!({"e": "rx", "f": f, "t": ms(t0)}));
-                        match act {
-                            Action::Send(b) => end.push(&b),
-                            Action::SendThenClose(b) => {
-                                end.push(&b);
-                                end.close();
-                                closed = true;
-                            }
-                            Action::Close => {
-                                end.close();
-                                closed = true;
-                            }
+        Some(tm) => {
+            // lock-step login prefix (everything up to and including the Encryption Response)
+            for ev in events {
+                if ev["e"] != "rx" {
+                    continue;
+                }
+                if let Action::Send(b) = cl.build(&ev["f"]) {
+                    cl.push(json!({"e": "rx", "f": ev["f"], "t": 0}));
+                    end.push(&b);
+                }
+                settle().await;
+                cl.drain(0);
+            }
+            if let Some(k) = tm.wsplit {
+                end.plan_writes((0..64).map(|_| crate::mock::WriteOutcome::Accept(k)).collect());
+            }
+            // (time in s, frame) actions; frames wait behind a partially sent one (the byte stream is ordered)
+            let mut actions: Vec<(u64, Value)> = vec![
+                (tm.ack_at, json!({"k": "LoginAck"})),
+                (tm.info_at, json!({"k": "ClientInfo", "locale": tm.locale})),
+            ];
+            if let Some((at, size)) = tm.plugin {
+                actions.push((at, json!({"k": "PluginMessage", "size": size})));
+            }
+            let mut pending_rest: Option<(u64, Vec<u8>, Value)> = None; // (deliver at, bytes, frame)
+            let mut seg_used = false;
+            let mut seen_tx = 0usize;
+            let mut echo_n = 0u64;
+            let mut stall_on = false;
+            tokio::time::sleep_until(t0 + Duration::from_millis(250)).await;
+            loop {
+                let now_ms = ms(t0);
+                let now_s = now_ms / 1000;
+                cl.drain(now_s);
+                // react to new Keep Alives according to the echo policy
+                let kas: Vec<u64> = {
+                    let l = log.lock().unwrap();
+                    let txs: Vec<&Value> = l.iter().filter(|e| e["e"] == "tx").collect();
+                    let new: Vec<u64> = txs[seen_tx.min(txs.len())..].iter().filter(|e| e["p"]["k"] == "KeepAlive").map(|e| e["t"].as_u64().unwrap_or(now_s)).collect();
+                    seen_tx = txs.len();
+                    new
+                };
+                for t in kas {
+                    match tm.policy.as_str() {
+                        "prompt" => actions.push((t + 3, json!({"k": "KeepAlive", "id": "last"}))),
+                        "slow" => actions.push((t + 15, json!({"k": "KeepAlive", "id": "last"}))),
+                        "late" => actions.push((t + 17, json!({"k": "KeepAlive", "id": "last"}))),
+                        "wrong" => actions.push((t + 3, json!({"k": "KeepAlive", "id": "wrong"}))),
+                        "dup" => {
+                            actions.push((t + 3, json!({"k": "KeepAlive", "id": "last"})));
+                            actions.push((t + 5, json!({"k": "KeepAlive", "id": "last"})));
                         }
-                    }
-                    Step::Part { f, from, to } => {
-                        if cache.as_ref().map(|(g, _)| g != &f).unwrap_or(true) || from == 0 {
-                            if let Action::Send(b) = cl.build(&f) {
-                                cl.push(json!({"e": "rx", "f": f, "t": ms(t0)}));
-                                cache = Some((f.clone(), b));
-                            }
+                        "unsolicited" => {
+                            actions.push((t + 3, json!({"k": "KeepAlive", "id": "last"})));
+                            actions.push((t + 7, json!({"k": "KeepAlive", "id": "unsolicited"})));
                         }
-                        if let Some((_, b)) = &cache {
-                            let to = to.unwrap_or(b.len()).min(b.len());
-                            end.push(&b[from.min(to)..to]);
-                        }
-                    }
-                    Step::Until(t) => {
-                        let now = ms(t0);
-                        if t > now {
-                            tokio::time::sleep_until(t0 + Duration::from_millis(t)).await;
-                        }
-                        cl.drain(ms(t0));
-                    }
-                    Step::UntilCall(a) => {
-                        for _ in 0..1_000_000 {
-                            let seen = log.lock().unwrap().iter().any(|e| e["e"] == "call" && e["c"]["a"] == a.as_str());
-                            if seen || server.is_finished() {
-                                break;
-                            }
-                            tokio::time::sleep(Duration::from_millis(1)).await;
-                            cl.drain(ms(t0));
-                        }
-                    }
-                    Step::Settle => {
-                        settle().await;
-                        cl.drain(ms(t0));
-                    }
-                    Step::Close => {
-                        end.close();
-                        closed = true;
+                        _ => {}
                     }
                 }
-                cl.drain(ms(t0));
+                // write stall window
+                if let Some((at, k, release)) = tm.wstall {
+                    if !stall_on && now_s >= at && now_s < release {
+                        end.plan_writes(vec![crate::mock::WriteOutcome::Accept(k), crate::mock::WriteOutcome::Pending]);
+                        stall_on = true;
+                    }
+                    if stall_on && now_s >= release {
+                        end.release_write();
+                    }
+                }
+                // the rest of a partially sent frame
+                if let Some((at, bytes, f)) = pending_rest.take() {
+                    if now_s >= at {
+                        end.push(&bytes);
+                        cl.push(json!({"e": "rx", "f": f, "t": now_s}));
+                    } else {
+                        pending_rest = Some((at, bytes, f));
+                    }
+                }
+                if pending_rest.is_none() && !server.is_finished() {
+                    actions.sort_by_key(|a| a.0);
+                    while let Some(pos) = actions.iter().position(|a| a.0 <= now_s) {
+                        let (_, f) = actions.remove(pos);
+                        let kind = f["k"].as_str().unwrap_or("").to_string();
+                        let is_echo = kind == "KeepAlive" && f["id"] == "last";
+                        if is_echo {
+                            echo_n += 1;
+                        }
+                        let seg_here = match &tm.seg {
+                            Some((fr, _, _)) if !seg_used => {
+                                (fr == "LoginAck" && kind == "LoginAck") || (fr == "ClientInfo" && kind == "ClientInfo") || (fr == "Plugin" && kind == "PluginMessage")
+                                    || (fr == "Echo" && is_echo && echo_n == 1)
+                            }
+                            _ => false,
+                        };
+                        if let Action::Send(b) = cl.build(&f) {
+                            if seg_here {
+                                let (_, cut, pause) = tm.seg.clone().unwrap();
+                                let cut = cut.min(b.len());
+                                seg_used = true;
+                                end.push(&b[..cut]);
+                                pending_rest = Some((now_s + pause, b[cut..].to_vec(), f));
+                                break;
+                            } else {
+                                end.push(&b);
+                                cl.push(json!({"e": "rx", "f": f, "t": now_s}));
+                            }
+                        }
+                    }
+                }
+                if server.is_finished() || now_s > tm.horizon {
+                    break;
+                }
+                tokio::time::sleep(Duration::from_millis(500)).await;
             }
-            settle().await;
-            cl.drain(ms(t0));
+            if stall_on {
+                end.release_write();
+            }
+            cl.drain(ms(t0) / 1000);
         }
     }
 
@@ -1309,6 +1388,116 @@ pub fn run_behaviour(idx: usize, b: &Value, seed: u64, var: u64) -> Value {
                  "client": conc.client_addr.to_string(), "expiry": conc.expiry, "secretLen": conc.secret_s.len(), "maxLen": conc.max_len,
                  "targets": conc.targets.iter().map(|(l, t)| (l.clone(), json!(t.address.to_string()))).collect::<serde_json::Map<_, _>>()},
     })
+}
+
+/// One timed scenario (C07 / C08): honest login, then the configuration phase under the given schedule.
+pub fn run_timed(idx: usize, rec: &Value, seed: u64, tm: Timed) -> Value {
+    let sched = &rec["sched"];
+    let mut rng = Rng::new(seed.wrapping_mul(1_000_003).wrapping_add(idx as u64));
+    let conc = Arc::new(Conc::new(&mut rng));
+    let evs: Vec<Value> = vec![
+        json!({"e": "rx", "f": {"k": "Handshake", "next": "Login"}}),
+        json!({"e": "rx", "f": {"k": "LoginStart", "who": "claimed"}}),
+        json!({"e": "rx", "f": {"k": "LoginCookieResponse", "which": "session", "v": "absent"}}),
+        json!({"e": "rx", "f": {"k": "EncryptionResponse", "c": "honest"}}),
+        json!({"e": "call", "c": {"a": "auth", "ret": "same"}}),
+        json!({"e": "call", "c": {"a": "discover", "ret": ["t1", "t2"]}}),
+        json!({"e": "call", "c": {"a": "filter", "ret": ["t2", "t1"]}}),
+        json!({"e": "call", "c": {"a": "select", "ret": "t2"}}),
+    ];
+    let mut lats = HashMap::new();
+    lats.insert("auth".to_string(), sched["auth"].as_u64().unwrap_or(0) * 1000);
+    for (i, a) in ["discover", "filter", "select"].iter().enumerate() {
+        lats.insert(a.to_string(), sched["lat"][i].as_u64().unwrap_or(0) * 1000);
+    }
+    let log: Log = Arc::new(Mutex::new(vec![]));
+    let mut jar = Jar { auth: None, sess: None };
+    let rt = tokio::runtime::Builder::new_current_thread().enable_all().start_paused(true).build().unwrap();
+    let rc = RoundCfg { secret: None, client_addr: conc.client_addr, expiry: conc.expiry };
+    let out = rt.block_on(run_round(conc.clone(), rc, &evs, Some(tm), lats, &mut jar, log.clone(), 0, seed));
+    drop(rt);
+    let obs = log.lock().unwrap().clone();
+    json!({"obs": obs, "result": if out.hang { "running".to_string() } else { out.result }, "why": out.why, "panic": out.panic, "hang": out.hang,
+           "leftover": out.leftover})
+}
+
+pub fn main_timed(args: &[String]) {
+    let mut input = None;
+    let mut output = None;
+    let mut seed = 1u64;
+    let mut threads = 8usize;
+    let mut pair = false;
+    let mut it = args.iter();
+    while let Some(a) = it.next() {
+        match a.as_str() {
+            "--in" => input = it.next().cloned(),
+            "--out" => output = it.next().cloned(),
+            "--seed" => seed = it.next().and_then(|s| s.parse().ok()).unwrap_or(1),
+            "--threads" => threads = it.next().and_then(|s| s.parse().ok()).unwrap_or(8),
+            "--pair" => pair = true,
+            _ => {}
+        }
+    }
+    let text = std::fs::read_to_string(input.expect("--in")).expect("read input");
+    let recs: Vec<Value> = text.lines().filter(|l| !l.trim().is_empty()).map(|l| serde_json::from_str(l).expect("json")).collect();
+    std::panic::set_hook(Box::new(|_| {}));
+    let _ = passage_protocol::crypto::ENCODED_PUB.len();
+    let next = Arc::new(std::sync::atomic::AtomicUsize::new(0));
+    let recs = Arc::new(recs);
+    let results: Arc<Mutex<Vec<(usize, String)>>> = Arc::new(Mutex::new(vec![]));
+    let mut hs = vec![];
+    for _ in 0..threads {
+        let (next, recs, results) = (next.clone(), recs.clone(), results.clone());
+        hs.push(std::thread::spawn(move || {
+            loop {
+                let k = next.fetch_add(1, std::sync::atomic::Ordering::SeqCst);
+                if k >= recs.len() {
+                    break;
+                }
+                let rec = &recs[k];
+                let mut tm = Timed::from_json(&rec["sched"]);
+                for key in ["seg", "wstall", "wsplit", "plugin"] {
+                    // these may also sit next to "sched"
+                    if rec.get(key).is_some() {
+                        let mut merged = rec["sched"].clone();
+                        merged[key] = rec[key].clone();
+                        let t2 = Timed::from_json(&merged);
+                        tm.seg = tm.seg.or(t2.seg);
+                        tm.wstall = tm.wstall.or(t2.wstall);
+                        tm.wsplit = tm.wsplit.or(t2.wsplit);
+                        tm.plugin = tm.plugin.or(t2.plugin);
+                    }
+                }
+                let var = run_timed(k, rec, seed, tm.clone());
+                let mut o = json!({"line": k + 1, "sched": rec["sched"], "seg": rec.get("seg").cloned().unwrap_or(json!("none")),
+                                   "wstall": rec.get("wstall").cloned().unwrap_or(json!("none")), "wsplit": rec.get("wsplit").cloned().unwrap_or(json!(0)), "stalled": rec.get("wstall").is_some(),
+                                   "obs": var["obs"], "result": var["result"], "why": var["why"], "panic": var["panic"], "hang": var["hang"], "leftover": var["leftover"]});
+                if pair {
+                    // reference: the same actions, the segmented frame delivered whole at the time its last byte arrives, transport accepts whole writes
+                    let mut rf = tm.clone();
+                    if let Some((f, _, p)) = rf.seg.clone() {
+                        rf.seg = Some((f, 0, p));
+                    }
+                    rf.wstall = None;
+                    rf.wsplit = None;
+                    let r = run_timed(k, rec, seed, rf);
+                    o["ref"] = json!({"obs": r["obs"], "result": r["result"], "why": r["why"], "panic": r["panic"]});
+                }
+                results.lock().unwrap().push((k, o.to_string()));
+            }
+        }));
+    }
+    for h in hs {
+        h.join().unwrap();
+    }
+    let mut r = std::mem::take(&mut *results.lock().unwrap());
+    r.sort();
+    let mut out = String::new();
+    for (_, l) in r {
+        out.push_str(&l);
+        out.push('\n');
+    }
+    std::fs::write(output.expect("--out"), out).expect("write output");
 }
 
 pub fn main(args: &[String]) {
